@@ -250,7 +250,7 @@ class C11(Check):
     def gen_cases(self, ctx, by_name):
         rng = ctx.sub_rng('cases')
         cases = []
-        n_sheets = ctx.n(14, 120)
+        n_sheets = ctx.n(11, 120)
         per_mut = ctx.n(3, 4)
         states = [{'sheet': cg.sheet_text(rng)} for _ in range(n_sheets)]
         # a dense fixed state that contains every rule kind
